@@ -44,6 +44,6 @@ PROP = dict(
            "rel.Dict.Format", "rel.Relation.Format", "rel.GenericSet.Format", "rel.UnionSet.Format", "rel.GenericTuple.Format",
            "rel.EmptySet.Format", "rel.TrueSet.Format", "rel.StringCharTuple.Format", "rel.ArrayItemTuple.Format",
            "rel.DictEntryTuple.Format", "rel.BytesByteTuple.Format",
-           "syntax.parseArraiStringFragment", "syntax.parseArraiString", "syntax.parseName", "syntax.compileString",
-           "syntax.compileNumber", "syntax.bundleConfig.String", "syntax.withBundledConfig", "pkg/arrai.OutputValue"],
+           "syntax.parseArraiStringFragment", "syntax.parseArraiString", "syntax.parseName", "syntax.ParseContext.compileString",
+           "syntax.ParseContext.compileNumber", "syntax.ParseContext.compileChar", "syntax.bundleConfig.String", "syntax.withBundledConfig", "pkg/arrai.OutputValue"],
 )
